@@ -73,12 +73,28 @@ Theorem C50_plain_file_served : forall fs root meth name ae def es c,
 Proof. exact plain_file_served. Qed.
 Print Assumptions C50_plain_file_served.
 
-(* The executable property predicate evaluated by the harness on the implementation (prop_C50 in run/RunC50.v:
-   200 => bytes and length of a file under the root; other methods => 405; non-200 => no body/length; a plain
-   path (no empty, dot, dot-dot, NUL or over-long element) naming an existing file serves exactly that file, and
-   naming nothing yields 404 when no default file is configured) holds of the model on EVERY decodable input:
-   all methods, paths, Accept-Encoding values, default files, settings and file systems. *)
-Theorem C50_prop_of_model : forall i, dec_input i <> None -> prop_C50 i (run_C50 i) = true.
+(* Pre-compressed siblings.  For every request and tree: a Content-Encoding is announced only on a 200 answer,
+   only with EnableCompress, only "gzip"/"br", only when Accept-Encoding carries that token, and the bytes/length
+   are those of a file stored under the root in an element ending with ".gz" / ".br" respectively. *)
+Theorem C50_encoding_only_for_accepted_sibling_under_root : forall x,
+  let r := serve_input x in prop_enc x (r_status r) (r_body r) (r_clen r) (r_cenc r) = true.
+Proof. exact prop_enc_of_model. Qed.
+Print Assumptions C50_encoding_only_for_accepted_sibling_under_root.
+
+(* Sibling selection for plain paths (prop_sibling in run/RunC50.v): with EnableCompress, in a parent-closed tree,
+   the first accepted encoding (gzip before br) whose sibling "<path>.<ext>" exists is the one served, with that
+   Content-Encoding and that file's bytes; without such a sibling the file itself without Content-Encoding;
+   nothing there and no default file => 404. *)
+Theorem C50_sibling_selection : forall x,
+  let r := serve_input x in prop_sibling x (r_status r) (r_body r) (r_clen r) (r_cenc r) = true.
+Proof. exact prop_sibling_of_model. Qed.
+Print Assumptions C50_sibling_selection.
+
+(* Central theorem: the executable property predicate evaluated by the harness on the implementation
+   (prop_C50 = prop_resp && prop_enc && prop_sibling && no file left open; for requests no rule covers: not handled)
+   holds of the model on EVERY well-formed (decodable) input: all methods, paths, Accept-Encoding values, default
+   files, settings, rule routes and file systems.  There is no known-finding class (kf_C50 = 0 everywhere). *)
+Theorem C50_prop_of_model : forall i, wf_C50 i = true -> kf_C50 i = 0 -> prop_C50 i (run_C50 i) = true.
 Proof. exact prop_C50_of_model. Qed.
 Print Assumptions C50_prop_of_model.
 
@@ -90,3 +106,10 @@ Example C50_example :
   serve fs [[119]] GET [47; 120; 47; 46; 46; 47; 97] [] [] false
     = {| r_status := 200; r_body := [1; 2; 3]; r_clen := [51]; r_cenc := [] |}.
 Proof. exact C50_example_lemma. Qed.
+
+(* Non-vacuity of the central theorem: a corpus case (corpus/C50/basics.case, sibling-gz) is well-formed; the model
+   serves the pre-compressed sibling a.txt.gz with Content-Encoding gzip. *)
+Example C50_wf_example :
+  wf_C50 corpus_sibling_gz = true /\
+  run_C50 corpus_sibling_gz = VL [VZ 200; VB [71;90;66;89;84;69;83]; VB [55]; VB GZIP; VL [VZ 0; VZ 0; VZ 0]].
+Proof. exact C50_wf_example_lemma. Qed.
